@@ -398,8 +398,14 @@ func (tr *translator) call(x *ast.CallExpr, en env) lx {
 		return tr.conv(x, tU32, arg(0))
 	case "uint64":
 		return tr.conv(x, tU64, arg(0))
-	case "int":
+	case "int", "time.Duration":
+		// time.Duration is an int64; like Go's int it is modelled unbounded (values here stay far below 2^63)
 		return tr.conv(x, tInt, arg(0))
+	case "min":
+		if len(x.Args) == 2 {
+			a, b, t := tr.unify(x, arg(0), arg(1))
+			return lx{s: fmt.Sprintf("(min %s %s)", a.s, b.s), t: t}
+		}
 	case "string", "[]byte", "utils.BytesToStringUnsafe":
 		return tr.coerce(x, arg(0), tBytes)
 	case "len":
@@ -714,7 +720,7 @@ func (tr *translator) pureAssignIf(x *ast.IfStmt, en env) ([]string, bool) {
 
 func (tr *translator) goType(e ast.Expr) ty {
 	switch tr.str(e) {
-	case "int":
+	case "int", "time.Duration":
 		return tInt
 	case "byte", "uint8":
 		return tU8
